@@ -9,6 +9,15 @@ thread_local! {
     pub static TUPLE_AS_STRUCT: std::cell::Cell<bool> = const { std::cell::Cell::new(false) };
 }
 
+/// kept out of line: the seed's `deserialize` frame is part of every level of a deep recursion (C01 stack probes)
+#[inline(never)]
+fn tuple_as_struct() -> bool { TUPLE_AS_STRUCT.with(|f| f.get()) }
+/// out of line for the same reason (a second inlined copy of the sequence access would enlarge every frame)
+#[inline(never)]
+fn de_tuple<'de, 'a, D: Deserializer<'de>>(d: D, n: usize, v: V<'a>) -> Result<Val, D::Error> {
+    if tuple_as_struct() { d.deserialize_tuple_struct("TS", n, v) } else { d.deserialize_tuple(n, v) }
+}
+
 #[derive(Clone, Debug, PartialEq)]
 pub enum Ty {
     Bool,
@@ -154,7 +163,7 @@ impl<'de, 'a> DeserializeSeed<'de> for Seed<'a> {
             Ty::Option(_) => d.deserialize_option(V(ty)),
             Ty::Seq(_) => d.deserialize_seq(V(ty)),
             // derived tuple STRUCTS call `deserialize_tuple_struct`; the typed model has one fixed-size sequence position
-            Ty::Tuple(ts) => if TUPLE_AS_STRUCT.with(|f| f.get()) { d.deserialize_tuple_struct("TS", ts.len(), V(ty)) } else { d.deserialize_tuple(ts.len(), V(ty)) },
+            Ty::Tuple(ts) => de_tuple(d, ts.len(), V(ty)),
             Ty::Map(..) => d.deserialize_map(V(ty)),
             Ty::Struct(fs, _) => {
                 let names: Vec<&'static str> = fs.iter().map(|f| f.0).collect();
